@@ -115,15 +115,16 @@ func VerifC17IsOnCurve(p int) {
 // one arbitrary byte: ScalarMult = [k]P (k may be 0 or exceed the group order), identity as
 // (0,0), never nil, no panic; ScalarBaseMult likewise for the generator.
 //
-//verif:run quick p=13 z=0..1
-//verif:run thorough p=13 z=2
-//verif:run thorough p=43 z=0
+// The arbitrary byte has its low `bits` bits free (bits = 8: every byte).
+//
+//verif:run quick p=13 z=0..1 bits=2
+//verif:run thorough p=13 z=0 bits=3..4
 //verif:big sbv 32
 //verif:timeout 300
-func VerifC17ScalarMult(p, z int) {
+func VerifC17ScalarMult(p, z, bits int) {
 	curve, t := verifCurve(p)
 	px, py := verifPoint("p", t.p)
-	kb := verifU8("k")
+	kb := verifU8("k") & byte(1<<uint(bits)-1)
 	k := make([]byte, z+1)
 	k[z] = kb
 	// reference double-and-add over the complete reference addition
